@@ -141,3 +141,104 @@ def is_sat(hyps, timeout_ms=10000):
         s.add(h)
     r = s.check()
     return "sat" if r == z3.sat else ("unsat" if r == z3.unsat else "unknown")
+
+
+# ---- quantifier-free relaxation: instantiate the universally quantified hypotheses over the ground index terms ----
+def _conjuncts(f):
+    if z3.is_and(f):
+        out = []
+        for c in f.children():
+            out += _conjuncts(c)
+        return out
+    return [f]
+
+
+def _is_forall(f):
+    return z3.is_quantifier(f) and f.is_forall()
+
+
+def _ground_int_terms(fs, limit):
+    seen, out = set(), []
+
+    def visit(t, bound_depth):
+        if z3.is_quantifier(t):
+            return  # terms under binders may mention bound variables; skipped
+        if z3.is_app(t):
+            if t.sort() == z3.IntSort() and t.get_id() not in seen and not z3.is_int_value(t):
+                seen.add(t.get_id())
+                out.append(t)
+            for c in t.children():
+                visit(c, bound_depth)
+
+    for f in fs:
+        visit(f, 0)
+    out.sort(key=lambda t: len(str(t)))
+    return out[:limit]
+
+
+def _skolemize_goal(goal, hyps):
+    """negated goal as a list of quantifier-free-ish facts plus fresh skolem constants"""
+    g = goal
+    extra = []
+    while True:
+        if z3.is_implies(g):
+            extra.append(g.arg(0))
+            g = g.arg(1)
+            continue
+        if _is_forall(g):
+            vs = [z3.FreshConst(g.var_sort(i), "sk") for i in range(g.num_vars())]
+            g = z3.substitute_vars(g.body(), *reversed(vs))
+            continue
+        break
+    return extra, g
+
+
+def relax_check(hyps, goal, timeout_ms=15000, max_terms=14, rounds=2):
+    """returns ('discharged'|'candidate'|'unknown', info).  'discharged' is sound (instances are consequences)."""
+    extra, g = _skolemize_goal(goal, hyps)
+    flat = []
+    for h in list(hyps) + extra:
+        flat += _conjuncts(h)
+    quant = [h for h in flat if _is_forall(h)]
+    qf = [h for h in flat if not z3.is_quantifier(h) and not _has_quant(h)]
+    neg = z3.Not(g)
+    facts = list(qf)
+    if not _has_quant(neg):
+        facts.append(neg)
+    else:
+        return "unknown", "negated goal keeps a quantifier"
+    insts = []
+    for _ in range(rounds):
+        terms = _ground_int_terms(facts + insts, max_terms)
+        if not terms:
+            terms = [z3.IntVal(0)]
+        new = []
+        for q in quant:
+            nv = q.num_vars()
+            if nv > 2 or any(q.var_sort(i) != z3.IntSort() for i in range(nv)):
+                continue
+            import itertools
+            for tup in itertools.product(terms, repeat=nv):
+                new.append(z3.substitute_vars(q.body(), *reversed(tup)))
+        insts = new
+    s = z3.Solver()
+    s.set("timeout", timeout_ms)
+    for f in facts:
+        s.add(f)
+    for f in insts:
+        if not _has_quant(f):
+            s.add(f)
+    r = s.check()
+    if r == z3.unsat:
+        return "discharged", "quantifier-free instantiation (%d instances)" % len(insts)
+    if r == z3.sat:
+        return "candidate", str(s.model())[:3000]
+    return "unknown", s.reason_unknown()
+
+
+def _has_quant(f):
+    if z3.is_quantifier(f):
+        return True
+    if z3.is_app(f):
+        return any(_has_quant(c) for c in f.children())
+    return False
